@@ -20,7 +20,7 @@ RULE = ('seeded schedules as in C09 with the trajectory sampling in place of the
         '(time_step >= 100x sampling interval with on-grid epochs); distinct = distinct seeds')
 ASSUMPTIONS = ['termination is decided as bounded progress: while-header visits <= 2 (rows + epochs in span) + 4, never by wall clock',
                'stamping of innovation rows with the sample time is not demanded by C10 (the filter stamps them with the row time)']
-REQUIRED_OBS = ['runs_completed', 'loop_iterations', 'hit_events', 'correct_events', 'schedules_with_clusters', 'schedules_with_gaps',
+REQUIRED_OBS = ['reruns_with_same_objects', 'runs_completed', 'loop_iterations', 'hit_events', 'correct_events', 'schedules_with_clusters', 'schedules_with_gaps',
                 'schedules_without_measurements', 'time_step_below_sampling', 'time_step_equal_sampling', 'with_increments',
                 'offline_checks']
 REQUIRED_CLASSES = {'all': ['uniform', 'jitter', 'gaps']}
@@ -115,6 +115,18 @@ def run_case(case):
         obs['runs_completed'] = 1
         obs['offline_checks'] = 1
         out.extend(seqmodels.check_feedforward(ev, r, S['times'], S['sensors'], S['time_step'], loop))
+        if case['seed'] % 3 == 0 and not out:
+            # the same measurement and model objects handed to the filter again (a parameter study on one data set): the second run must
+            # consume every sample exactly once too (a cursor / memo kept inside the objects only shows on the second run)
+            r2, ev2, err2 = run_filter(S, loop, with_increments)
+            obs['reruns_with_same_objects'] = 1
+            if err2 is not None:
+                out.append(dict(err2, message='[second run with the same objects] ' + err2['message']))
+            else:
+                out.extend(dict(v, message='[second run with the same objects] ' + v['message'])
+                           for v in seqmodels.check_feedforward(ev2, r2, S['times'], S['sensors'], S['time_step'], loop))
+                if not np.array_equal(r['trajectory'].values, r2['trajectory'].values) or not np.array_equal(r['trajectory_sd'].values, r2['trajectory_sd'].values):
+                    out.append(vio('rerun_differs', 'a second run with the same measurement / model objects returns a different trajectory or sd table'))
     # interleaving signature: how many measurement epochs fall into each sampling interval (run-length coded), the relation of the covariance
     # step to the sampling interval, and which sensors share epochs - the evidence reports how many DISTINCT interleavings were driven
     t_ = S['times']
